@@ -103,9 +103,28 @@ def in_memory_bodies_are_tagged(ctx):
     rets = [n for n in own_nodes(t.node) if isinstance(n, ast.Return)]
     tagn = (q.returned_names(t) or ['tag'])[0]
     tags = [(st, v) for st, v in q.local_defs(t, tagn) if isinstance(v, ast.AST)]
-    ok = any(norm(v) == 'IN_MEMORY_UPLOAD_TAG' and q.guards_imply(q.guards(st), f'{t.params[1]}.stores_body_in_memory({t.params[2]})') and len(q.guards(st)) == 1 for st, v in tags) \
-        and any(norm(v) == 'None' and not q.guards(st) for st, v in tags) and all(norm(r.value) == tagn for r in rets)
-    ctx.ob(t, 'tag = IN_MEMORY_UPLOAD_TAG iff stores_body_in_memory(operation_name)', ok, f'tag selection not recognised: {[(norm(v), q.guard_texts(st)) for st, v in tags]}')
+    # per path to a return: the value returned is the tag exactly when stores_body_in_memory(op) held on the path
+    gt = ctx.cfg(t)
+    cond = f'{t.params[1]}.stores_body_in_memory({t.params[2]})'
+    seen_tag = seen_none = False
+    ok = bool(rets)
+    found = []
+    for r in rets:
+        pv = q.path_values(gt, t, gt.nodes_of(r), [r.value if r.value is not None else ast.Constant(value=None)])
+        if pv is None:
+            ok = False
+            continue
+        for conds, (val,), _ in pv:
+            found.append((norm(val), [(norm(e), p) for e, p in conds]))
+            if norm(val) == 'IN_MEMORY_UPLOAD_TAG':
+                seen_tag = True
+                ok = ok and q.guards_imply(conds, cond)
+            elif norm(val) == 'None':
+                seen_none = True
+                ok = ok and q.guards_imply(conds, f'not {cond}')
+            else:
+                ok = False
+    ctx.ob(t, 'tag = IN_MEMORY_UPLOAD_TAG iff stores_body_in_memory(operation_name)', ok and seen_tag and seen_none, f'tag selection not recognised: {found[:4]}')
     for fname, op, fac in (('_submit_upload_request', 'put_object', 'get_put_object_body'), ('_submit_multipart_request', 'upload_part', 'yield_upload_part_bodies')):
         f = ctx.func(f'upload.UploadSubmissionTask.{fname}')
         subs = [s for s in q.submits(ctx) if s.func is f]
